@@ -190,11 +190,34 @@ func runC04(c *mon.Ctx) {
 		r := cs.Rand()
 		signer := pick(r, w.IdP)
 		rec := sim.GenuineResponse(w.Env, 1+r.IntN(2))
-		mode := pick(r, []string{"untrusted-key", "foreign-key-trusted-cert", "broken-digest", "broken-value", "trusted-good"})
+		mode := pick(r, []string{"untrusted-key", "foreign-key-trusted-cert", "broken-digest", "broken-value", "trusted-good", "mixed", "mixed"})
+		sameID := false
+		if mode == "mixed" {
+			// every assertion its own fate, at least one good and one not; in half of these all of them share one ID
+			// (what an indicator says is said about that very element, not about whatever else goes by the same ID)
+			rec = sim.GenuineResponse(w.Env, 2+r.IntN(2))
+			sameID = r.IntN(2) == 0
+		}
+		modes := make([]string, len(rec.Assertions))
+		shared := fmt.Sprintf("_shared-%08x", r.Uint32())
 		for i, a := range rec.Assertions {
 			a.ID = sim.S(fmt.Sprintf("_a%d-%08x", i, r.Uint32()))
+			if sameID {
+				a.ID = sim.S(shared)
+			}
 			ac := pick(r, w.Atk)
-			switch mode {
+			modes[i] = mode
+			if mode == "mixed" {
+				modes[i] = pick(r, []string{"untrusted-key", "foreign-key-trusted-cert", "broken-digest", "broken-value", "trusted-good"})
+				if i == 0 {
+					modes[i] = pick(r, []string{"trusted-good", "broken-digest", "untrusted-key"})
+				} else if i == 1 && modes[0] == "trusted-good" {
+					modes[i] = pick(r, []string{"untrusted-key", "foreign-key-trusted-cert", "broken-digest", "broken-value"})
+				} else if i == 1 {
+					modes[i] = "trusted-good"
+				}
+			}
+			switch modes[i] {
 			case "untrusted-key":
 				a.Sig = sim.DefaultSig(ac.Key, ac)
 			case "foreign-key-trusted-cert":
@@ -217,20 +240,32 @@ func runC04(c *mon.Ctx) {
 			cs.Inconclusive("simulator-error")
 			continue
 		}
-		cs.Desc("mode=%s n=%d signer=%s", mode, len(rec.Assertions), signer.Key.Name)
+		cs.Desc("mode=%s %v sameID=%v n=%d signer=%s", mode, modes, sameID, len(rec.Assertions), signer.Key.Name)
 		cs.Input([]byte(doc))
 		sp, _, _ := NewSP(w.Now, signer)
 		resp, verr := sp.ValidateEncodedResponse(sim.Encode(doc, sim.RawLevel))
 		if verr != nil {
 			cs.Outcome("rejected")
+			if sameID {
+				continue // assertions sharing an ID: no conforming message, refusing it is fine
+			}
 			cs.Violation("trusted-signed-response-rejected", "a Response with a valid trusted signature was rejected: %v", verr)
 			continue
 		}
 		cs.Nontrivial(fmt.Sprintf("%x", mon.Hash64(doc)))
 		cs.Outcome(fmt.Sprintf("accepted-respflag-%v", resp.SignatureValidated))
+		if len(resp.Assertions) != len(modes) {
+			cs.Violation("assertion-count-differs", "%d assertions signed, %d returned", len(modes), len(resp.Assertions))
+			continue
+		}
+		c.Count("mode."+mode, 1)
 		for i := range resp.Assertions {
-			if resp.Assertions[i].SignatureValidated && mode != "trusted-good" {
-				cs.Violation("assertion-flag-overstated", "assertion %d is marked validated although its own signature (%s) was never verified and would not verify", i, mode)
+			// plain assertions come back in document order; make sure it is the same element before judging its indicator
+			if resp.Assertions[i].Subject == nil || resp.Assertions[i].Subject.NameID == nil || rec.Assertions[i].NameID == nil || resp.Assertions[i].Subject.NameID.Value != sim.StripMarks(*rec.Assertions[i].NameID) {
+				continue
+			}
+			if resp.Assertions[i].SignatureValidated && modes[i] != "trusted-good" {
+				cs.Violation("assertion-flag-overstated", "assertion %d (of %d, same ID: %v) is marked validated although its own signature (%s) was never verified and would not verify", i, len(modes), sameID, modes[i])
 				break
 			}
 		}
